@@ -90,7 +90,7 @@ def run_property(prop, tier, seed, jobs=None, only=None):
         for i, c in enumerate(r.get('candidates', [])[:MAX_REPLAYS_PER_CASE]):
             a = ans.get(('replay', r['case'], i))
             confirmed, text = mod.judge(r['case'], r['kwargs'], c, a) if a and 'error' not in a else (None, (a or {}).get('error', 'no answer'))
-            kf = known.match(findings, prop, r['case'], c['name'], c)
+            kf = known.by_id(findings, c['known']) if c.get('known') else None
             if confirmed is True:
                 if kf is not None and kf.get('status') == 'open':
                     known_lines.append((kf, r['case'], c['name'], text))
